@@ -20,6 +20,10 @@ pub enum HasherKind {
     Collide,
     /// the real thing: keys from the OS, deliberately uncontrolled (C18 only)
     Random,
+    /// a hasher whose `BuildHasher::hash_one` is specialised and returns another value than
+    /// build_hasher + hash + finish would (as ahash does): hashes computed by hand and hashes
+    /// computed by the map then disagree
+    Special,
 }
 
 thread_local! {
@@ -49,6 +53,7 @@ pub enum DynState {
     Mul,
     Collide,
     Random(RandomState),
+    Special,
 }
 
 impl DynState {
@@ -58,6 +63,7 @@ impl DynState {
             HasherKind::Mul => DynState::Mul,
             HasherKind::Collide => DynState::Collide,
             HasherKind::Random => DynState::Random(RandomState::new()),
+            HasherKind::Special => DynState::Special,
         }
     }
 }
@@ -98,6 +104,17 @@ impl BuildHasher for DynState {
             DynState::Mul => DynHasher::Mul(0),
             DynState::Collide => DynHasher::Collide,
             DynState::Random(r) => DynHasher::Std(r.build_hasher()),
+            DynState::Special => DynHasher::Mul(0x5bec_1a11),
+        }
+    }
+    fn hash_one<T: std::hash::Hash>(&self, x: T) -> u64 {
+        let mut h = self.build_hasher();
+        x.hash(&mut h);
+        let v = h.finish();
+        match self {
+            // specialised: a different (but equally consistent) function of the value
+            DynState::Special => v.rotate_left(17) ^ 0xA5A5_5A5A_DEAD_BEEF,
+            _ => v,
         }
     }
 }
